@@ -143,6 +143,59 @@ func analyseCond(fd *ast.FuncDecl) (*condMethod, error) {
 	return m, nil
 }
 
+// statelessCond: the method has no loop, at most one if statement, and writes no field of the receiver
+// (a wait / wake-up decision that depends on anything but the code and the condition variable itself -
+// counters, flags, generation numbers - is state the event model does not have).
+func statelessCond(fd *ast.FuncDecl) bool {
+	if fd == nil || fd.Body == nil {
+		return false
+	}
+	recv := fd.Recv.List[0].Names[0].Name
+	ok, ifs := true, 0
+	rooted := func(e ast.Expr) bool {
+		for {
+			switch x := e.(type) {
+			case *ast.SelectorExpr:
+				e = x.X
+			case *ast.IndexExpr:
+				e = x.X
+			case *ast.StarExpr:
+				e = x.X
+			case *ast.ParenExpr:
+				e = x.X
+			case *ast.Ident:
+				return x.Name == recv
+			default:
+				return false
+			}
+		}
+	}
+	ast.Inspect(fd.Body, func(n ast.Node) bool {
+		switch x := n.(type) {
+		case *ast.ForStmt, *ast.RangeStmt, *ast.GoStmt, *ast.SelectStmt:
+			ok = false
+		case *ast.IfStmt:
+			ifs++
+		case *ast.AssignStmt:
+			for _, l := range x.Lhs {
+				if rooted(l) {
+					ok = false
+				}
+			}
+		case *ast.IncDecStmt:
+			if rooted(x.X) {
+				ok = false
+			}
+		case *ast.UnaryExpr:
+			if x.Op == token.AND && rooted(x.X) { // &s.field handed to something (atomic.AddInt32 ...)
+				ok = false
+			}
+		}
+		return true
+	})
+	return ok && ifs <= 1
+}
+
 func b2c(b bool) string {
 	if b {
 		return "true"
@@ -193,6 +246,10 @@ func gen(repo string, w *bytes.Buffer) error {
 		} else {
 			bm = m
 		}
+	}
+	stateless := false
+	if f != nil {
+		stateless = statelessCond(tutil.FindMethod(f, "Server", "Wait")) && statelessCond(tutil.FindMethod(f, "Server", "Broadcast"))
 	}
 	wake := 0
 	switch {
@@ -327,6 +384,8 @@ func gen(repo string, w *bytes.Buffer) error {
 	fmt.Fprintf(w, "Definition wake_kind : N := %d%%N.\n", wake)
 	fmt.Fprintf(w, "(* both hold the condition's L (Lock, deferred Unlock) around the call *)\n")
 	fmt.Fprintf(w, "Definition cond_lock_held : bool := %s.\n", b2c(wm.locksL && bm.locksL))
+	fmt.Fprintf(w, "(* Wait and Broadcast have no loop, at most one if (the range guard) and write no field of the server *)\n")
+	fmt.Fprintf(w, "Definition cond_methods_stateless : bool := %s.\n", b2c(stateless))
 	fmt.Fprintf(w, "(* agent/yubiagent: the wait request code; ServeAgent calls Broadcast(req[0]) exactly once per\n   request, on the concrete *shimagent.Server, before the switch on req[0]; the wait case calls Wait(req[1]) *)\n")
 	fmt.Fprintf(w, "Definition agent_message_wait : N := %d%%N.\n", waitCode)
 	fmt.Fprintf(w, "Definition serve_broadcast_before_dispatch : bool := %s.\n", b2c(bcastBefore))
